@@ -133,3 +133,329 @@ end Wz.Gen.Cookie
     return write("Cookie", body, "src/werkzeug/http.py, src/werkzeug/sansio/http.py")
 
 
+# --------------------------------------------------------------------------------------------
+# round 3: the glue around the escaping core (attribute assembly, Response.set_cookie /
+# delete_cookie, the test client's jar) as regenerated constants, AST facts and small finite
+# decision tables evaluated on the live functions.
+
+
+def _src(*parts):
+    return open(os.path.join(REPO, "src", "werkzeug", *parts)).read()
+
+
+def _find_def(tree, name, cls=None):
+    for node in ast.walk(tree):
+        if cls is not None:
+            if isinstance(node, ast.ClassDef) and node.name == cls:
+                for sub in node.body:
+                    if isinstance(sub, (ast.FunctionDef,)) and sub.name == name:
+                        return sub
+        elif isinstance(node, ast.FunctionDef) and node.name == name:
+            return node
+    raise RuntimeError(f"{cls + '.' if cls else ''}{name} not found")
+
+
+def _defaults(fn):
+    """(parameter name, source text of its default or '<required>') in order, self excluded"""
+    out = []
+    a = fn.args
+    pos = a.posonlyargs + a.args
+    dflt = [None] * (len(pos) - len(a.defaults)) + list(a.defaults)
+    for p, d in zip(pos, dflt):
+        if p.arg == "self" or p.arg == "cls":
+            continue
+        out.append((p.arg, "<required>" if d is None else ast.unparse(d)))
+    for p, d in zip(a.kwonlyargs, a.kw_defaults):
+        out.append((p.arg, "<required>" if d is None else ast.unparse(d)))
+    if a.kwarg is not None:
+        out.append(("**" + a.kwarg.arg, "<kwargs>"))
+    return out
+
+
+def _single_call(fn, pred, what):
+    hits = [n for n in ast.walk(fn) if isinstance(n, ast.Call) and pred(n)]
+    if len(hits) != 1:
+        raise RuntimeError(f"{fn.name}: expected exactly one {what} call, found {len(hits)}")
+    return hits[0]
+
+
+def _call_shape(call):
+    """positional args and keywords of a call as source text"""
+    pos = [ast.unparse(a) for a in call.args]
+    kws = [("**" if k.arg is None else k.arg, ast.unparse(k.value)) for k in call.keywords]
+    return pos, kws
+
+
+def dump_cookie_facts():
+    fn = _find_def(ast.parse(_src("http.py")), "dump_cookie")
+    # the `for k, v in ((..), ...)` attribute tuple
+    order = None
+    for node in ast.walk(fn):
+        if isinstance(node, ast.For) and isinstance(node.iter, ast.Tuple) and node.iter.elts and all(
+            isinstance(e, ast.Tuple) and len(e.elts) == 2 and isinstance(e.elts[0], ast.Constant) for e in node.iter.elts
+        ):
+            if order is not None:
+                raise RuntimeError("dump_cookie: two attribute loops")
+            order = [(e.elts[0].value, ast.unparse(e.elts[1])) for e in node.iter.elts]
+            loop_body = [" ".join(ast.unparse(s).split()) for s in node.body]
+    if order is None:
+        raise RuntimeError("dump_cookie: attribute loop not found")
+    # samesite: `samesite = samesite.title()` and `samesite not in {...}`
+    accepted, uses_title = None, False
+    for node in ast.walk(fn):
+        if isinstance(node, ast.Compare) and len(node.ops) == 1 and isinstance(node.ops[0], ast.NotIn) and ast.unparse(node.left) == "samesite":
+            accepted = sorted(ast.literal_eval(node.comparators[0]))
+        if isinstance(node, ast.Assign) and ast.unparse(node) == "samesite = samesite.title()":
+            uses_title = True
+    if accepted is None:
+        raise RuntimeError("dump_cookie: samesite membership test not found")
+    # "; ".join(buf) and the statements that follow the join (only the size warning may follow)
+    joins = [n for n in ast.walk(fn) if isinstance(n, ast.Call) and isinstance(n.func, ast.Attribute) and n.func.attr == "join" and isinstance(n.func.value, ast.Constant)]
+    if len(joins) != 1:
+        raise RuntimeError("dump_cookie: expected one str.join")
+    sep = joins[0].func.value.value
+    # top-level statements in order, as a coarse fingerprint of the control flow
+    stmts = []
+    for s in fn.body:
+        if isinstance(s, ast.Expr) and isinstance(s.value, ast.Constant):
+            continue  # docstring
+        stmts.append(ast.unparse(s).split("\n")[0])
+    # partitioned => secure
+    part = any(isinstance(n, ast.If) and ast.unparse(n.test) == "partitioned" and [ast.unparse(s) for s in n.body] == ["secure = True"] for n in ast.walk(fn))
+    # the domain pipeline
+    dom = [ast.unparse(n.value) for n in ast.walk(fn) if isinstance(n, ast.Assign) and ast.unparse(n.targets[0]) == "domain"]
+    ma = [ast.unparse(n.value) for n in ast.walk(fn) if isinstance(n, ast.Assign) and ast.unparse(n.targets[0]) == "max_age"]
+    # after the join nothing may assign rv again
+    rv_assigns = [ast.unparse(n) for n in ast.walk(fn) if isinstance(n, ast.Assign) and ast.unparse(n.targets[0]) == "rv"]
+    returns = [ast.unparse(n) for n in ast.walk(fn) if isinstance(n, ast.Return)]
+    return dict(order=order, loop_body=loop_body, accepted=accepted, uses_title=uses_title, sep=sep, stmts=stmts, part=part, dom=dom, ma=ma, rv_assigns=rv_assigns, returns=returns, defaults=_defaults(fn))
+
+
+def response_facts():
+    tree = ast.parse(_src("sansio", "response.py"))
+    sc = _find_def(tree, "set_cookie", "Response")
+    dc = _find_def(tree, "delete_cookie", "Response")
+    call = _single_call(sc, lambda n: getattr(n.func, "id", None) == "dump_cookie", "dump_cookie")
+    add = _single_call(sc, lambda n: ast.unparse(n.func) == "self.headers.add", "self.headers.add")
+    add_pos, add_kw = _call_shape(add)
+    sc_pos, sc_kw = _call_shape(call)
+    dcall = _single_call(dc, lambda n: ast.unparse(n.func) == "self.set_cookie", "self.set_cookie")
+    dc_pos, dc_kw = _call_shape(dcall)
+    # both bodies must be exactly that one call statement (plus docstring)
+    def only_stmt(fn):
+        body = [s for s in fn.body if not (isinstance(s, ast.Expr) and isinstance(s.value, ast.Constant))]
+        return len(body) == 1 and isinstance(body[0], ast.Expr) and isinstance(body[0].value, ast.Call)
+
+    return dict(sc_pos=sc_pos, sc_kw=sc_kw, add_first=add_pos[0] if add_pos else "", add_n=len(add_pos), add_kw=add_kw, dc_pos=dc_pos, dc_kw=dc_kw,
+                sc_defaults=_defaults(sc), dc_defaults=_defaults(dc), sc_only=only_stmt(sc), dc_only=only_stmt(dc))
+
+
+def jar_facts():
+    tree = ast.parse(_src("test.py"))
+    frh = _find_def(tree, "_from_response_header", "Cookie")
+    # every string literal used as a key into `params`
+    names = []
+    for node in ast.walk(frh):
+        if isinstance(node, ast.Call) and ast.unparse(node.func) == "params.get" and node.args and isinstance(node.args[0], ast.Constant):
+            names.append(node.args[0].value)
+        if isinstance(node, ast.Subscript) and ast.unparse(node.value) == "params" and isinstance(node.slice, ast.Constant):
+            names.append(node.slice.value)
+        if isinstance(node, ast.Compare) and isinstance(node.left, ast.Constant) and isinstance(node.left.value, str) and ast.unparse(node.comparators[0]) == "params":
+            names.append(node.left.value)
+    ctor = _single_call(frh, lambda n: getattr(n.func, "id", None) == "cls", "cls(...)")
+    _, fields = _call_shape(ctor)
+    stmts = [ast.unparse(s).split("\n")[0] for s in frh.body if not (isinstance(s, ast.Expr) and isinstance(s.value, ast.Constant))]
+    cs = _find_def(tree, "set_cookie", "Client")
+    cd = _find_def(tree, "delete_cookie", "Client")
+    cg = _find_def(tree, "get_cookie", "Client")
+    cs_call = _single_call(cs, lambda n: ast.unparse(n.func) == "Cookie._from_response_header", "Cookie._from_response_header")
+    sk = _find_def(tree, "_storage_key", "Cookie")
+    trh = _find_def(tree, "_to_request_header", "Cookie")
+    add = _find_def(tree, "_add_cookies_to_wsgi", "Client")
+    join = [n for n in ast.walk(add) if isinstance(n, ast.Call) and isinstance(n.func, ast.Attribute) and n.func.attr == "join" and isinstance(n.func.value, ast.Constant)]
+    upd = _find_def(tree, "_update_cookies_from_response", "Client")
+    return dict(
+        names=sorted(set(names)), fields=fields, stmts=stmts,
+        cs_defaults=_defaults(cs), cd_defaults=_defaults(cd), cg_defaults=_defaults(cg),
+        cs_call=[ast.unparse(a) for a in cs_call.args],
+        storage_key=[ast.unparse(s) for s in sk.body if isinstance(s, ast.Return)],
+        to_request=[ast.unparse(s) for s in trh.body if isinstance(s, ast.Return)],
+        jar_join=[j.func.value.value for j in join],
+        upd_body=[ast.unparse(s).split("\n")[0] for s in ast.walk(upd) if isinstance(s, (ast.If,)) and "_should_delete" in ast.unparse(s.test)],
+        upd_branches=[[ast.unparse(x) for x in s.body] + ["else"] + [ast.unparse(x) for x in s.orelse] for s in ast.walk(upd) if isinstance(s, ast.If) and "_should_delete" in ast.unparse(s.test)],
+    )
+
+
+MATCH_DOMAINS = ["a.com", "b.a.com", "xa.com", "com", ".a.com", "a.com.", "localhost"]
+MATCH_PATHS_C = ["/", "/a", "/a/", "/a/b", "/ab", "/a b"]
+MATCH_PATHS_R = ["/", "/a", "/a/", "/a/b", "/ab", "/ab/c", "/a b/c", "/b", ""]
+
+
+def live_tables():
+    from datetime import datetime, timezone
+
+    http = importlib.import_module("werkzeug.http")
+    test = importlib.import_module("werkzeug.test")
+    from urllib.parse import quote
+
+    safe = dump_cookie_path_safe()
+    keeps = []
+    upper = True
+    for b in range(256):
+        q = quote(bytes([b]), safe=safe)
+        keep = q == chr(b)
+        keeps.append(keep)
+        if not keep and q != "%%%02X" % b:
+            upper = False
+    epoch = http.http_date(0)
+    pd = http.parse_date(epoch)
+    epoch_ok = pd is not None and pd.timestamp() == 0
+
+    def mk(**kw):
+        base = dict(key="k", value="v", decoded_key="k", decoded_value="v", expires=None, max_age=None, domain="a.com", origin_only=True, path="/", secure=False, http_only=False, same_site=None)
+        base.update(kw)
+        return test.Cookie(**base)
+
+    sd = []
+    for ma in (None, -1, 0, 1):
+        for ex in (None, 0, 1):
+            c = mk(max_age=ma, expires=None if ex is None else datetime.fromtimestamp(ex, tz=timezone.utc))
+            sd.append((ma, ex, bool(c._should_delete)))
+    dm = []
+    for cd in MATCH_DOMAINS:
+        for oo in (True, False):
+            for sn in MATCH_DOMAINS:
+                dm.append((cd, oo, sn, bool(mk(domain=cd, origin_only=oo, path="/")._matches_request(sn, "/"))))
+    pm = []
+    for cp in MATCH_PATHS_C:
+        for rp in MATCH_PATHS_R:
+            pm.append((cp, rp, bool(mk(path=cp)._matches_request("a.com", rp))))
+    resp = importlib.import_module("werkzeug.sansio.response")
+    iri_root = importlib.import_module("werkzeug.urls").uri_to_iri("/") == "/"
+    return dict(keeps=keeps, upper=upper, epoch=epoch, epoch_ok=epoch_ok, sd=sd, dm=dm, pm=pm, max_cookie_size=resp.Response.max_cookie_size, iri_root=iri_root)
+
+
+def _pairs(ps):
+    return lean_list(["(" + lean_str(a) + ", " + lean_str(b) + ")" for a, b in ps], 4)
+
+
+def _strs(ss):
+    return lean_list([lean_str(s) for s in ss], 4)
+
+
+def _opt_int(v):
+    return "none" if v is None else ("some (" + str(v) + ")")
+
+
+@generator("CookieGlue")
+def gen_cookie_glue():
+    d = dump_cookie_facts()
+    r = response_facts()
+    j = jar_facts()
+    t = live_tables()
+    body = f"""namespace Wz.Gen.CookieGlue
+
+/-! ### `http.dump_cookie` (AST) -/
+
+/-- the `(attribute name, local variable)` pairs of the `for k, v in (...)` loop, in source order -/
+def attrOrder : List (String × String) := {_pairs(d["order"])}
+
+/-- the statements of that loop's body -/
+def attrLoopBody : List String := {_strs(d["loop_body"])}
+
+/-- the set literal of `samesite not in {{...}}` (sorted) -/
+def sameSiteAccepted : List String := {_strs(d["accepted"])}
+
+/-- `samesite = samesite.title()` precedes the membership test -/
+def sameSiteUsesTitle : Bool := {lean_bool(d["uses_title"])}
+
+/-- the separator literal of `"; ".join(buf)` -/
+def joinSep : String := {lean_str(d["sep"])}
+
+/-- `if partitioned: secure = True` is present -/
+def partitionedSetsSecure : Bool := {lean_bool(d["part"])}
+
+/-- right-hand sides assigned to `domain` / `max_age` / `rv`, and the `return` statements -/
+def domainAssigns : List String := {_strs(d["dom"])}
+def maxAgeAssigns : List String := {_strs(d["ma"])}
+def rvAssigns : List String := {_strs(d["rv_assigns"])}
+def returns : List String := {_strs(d["returns"])}
+
+/-- first line of every top-level statement of `dump_cookie`, in order -/
+def dumpStmts : List String := {_strs(d["stmts"])}
+
+/-- parameters and the source text of their defaults -/
+def dumpDefaults : List (String × String) := {_pairs(d["defaults"])}
+
+/-! ### `sansio.response.Response.set_cookie` / `delete_cookie` (AST) -/
+
+/-- `set_cookie`: positional arguments and keywords of its single `dump_cookie(...)` call -/
+def setCookiePos : List String := {_strs(r["sc_pos"])}
+def setCookieKw : List (String × String) := {_pairs(r["sc_kw"])}
+/-- ... which is the second of two positional arguments of the single `self.headers.add(...)` call whose first is -/
+def setCookieHeaderName : String := {lean_str(r["add_first"])}
+def setCookieAddArity : Nat := {r["add_n"]}
+def setCookieAddKw : List (String × String) := {_pairs(r["add_kw"])}
+def setCookieDefaults : List (String × String) := {_pairs(r["sc_defaults"])}
+def setCookieSingleStatement : Bool := {lean_bool(r["sc_only"])}
+
+/-- `delete_cookie`: positional arguments and keywords of its single `self.set_cookie(...)` call -/
+def deleteCookiePos : List String := {_strs(r["dc_pos"])}
+def deleteCookieKw : List (String × String) := {_pairs(r["dc_kw"])}
+def deleteCookieDefaults : List (String × String) := {_pairs(r["dc_defaults"])}
+def deleteCookieSingleStatement : Bool := {lean_bool(r["dc_only"])}
+
+/-- `Response.max_cookie_size` (live class attribute) -/
+def maxCookieSize : Nat := {t["max_cookie_size"]}
+
+/-! ### `test.Cookie` / `test.Client` (AST) -/
+
+/-- every string literal used as a key into `params` in `Cookie._from_response_header` (sorted) -/
+def jarParamNames : List String := {_strs(j["names"])}
+
+/-- keyword arguments of the `cls(...)` call: field := source expression -/
+def jarFields : List (String × String) := {_pairs(j["fields"])}
+
+/-- first line of every top-level statement of `_from_response_header` -/
+def jarFromHeaderStmts : List String := {_strs(j["stmts"])}
+
+def clientSetDefaults : List (String × String) := {_pairs(j["cs_defaults"])}
+def clientDeleteDefaults : List (String × String) := {_pairs(j["cd_defaults"])}
+def clientGetDefaults : List (String × String) := {_pairs(j["cg_defaults"])}
+/-- arguments of `Cookie._from_response_header(...)` inside `Client.set_cookie` -/
+def clientSetCall : List String := {_strs(j["cs_call"])}
+def storageKeyReturn : List String := {_strs(j["storage_key"])}
+def toRequestHeaderReturn : List String := {_strs(j["to_request"])}
+def jarJoinSep : List String := {_strs(j["jar_join"])}
+/-- the `if cookie._should_delete: pop ... else: store` statement of `_update_cookies_from_response` -/
+def updateBranches : List (List String) := {lean_list([_strs(b) for b in j["upd_branches"]], 1)}
+
+/-! ### live evaluations -/
+
+/-- `urllib.parse.quote(bytes([b]), safe=<dump_cookie's literal>) == chr(b)` for b = 0..255 -/
+def quoteKeeps : List Bool := {lean_list([lean_bool(b) for b in t["keeps"]])}
+
+/-- every byte not kept is emitted as `%XX` with upper-case hex digits -/
+def quoteUpperHex : Bool := {lean_bool(t["upper"])}
+
+/-- `http_date(0)` -/
+def epochDate : String := {lean_str(t["epoch"])}
+
+/-- `parse_date(http_date(0)).timestamp() == 0` -/
+def epochDateParsesToEpoch : Bool := {lean_bool(t["epoch_ok"])}
+
+/-- `uri_to_iri("/") == "/"` -/
+def iriRootFixed : Bool := {lean_bool(t["iri_root"])}
+
+/-- `Cookie._should_delete` over max_age x expires-timestamp -/
+def shouldDeleteTable : List (Option Int × Option Int × Bool) := {lean_list(["(" + _opt_int(a) + ", " + _opt_int(b) + ", " + lean_bool(c) + ")" for a, b, c in t["sd"]], 4)}
+
+/-- `Cookie._matches_request(server_name, "/")` over cookie domain x origin_only x server name -/
+def domainMatchTable : List (String × Bool × String × Bool) := {lean_list(["(" + lean_str(a) + ", " + lean_bool(b) + ", " + lean_str(c) + ", " + lean_bool(e) + ")" for a, b, c, e in t["dm"]], 3)}
+
+/-- `Cookie._matches_request("a.com", request_path)` over cookie path x request path -/
+def pathMatchTable : List (String × String × Bool) := {lean_list(["(" + lean_str(a) + ", " + lean_str(b) + ", " + lean_bool(c) + ")" for a, b, c in t["pm"]], 4)}
+
+end Wz.Gen.CookieGlue
+"""
+    return write("CookieGlue", body, "src/werkzeug/http.py, src/werkzeug/sansio/response.py, src/werkzeug/test.py")
